@@ -188,6 +188,7 @@ def run(c, prog):
                 c.violation(R, f"value|{v}|{fp}", f"attribute type {v}: field `{fp or 'value'}` is read back as `{got}` — not the value that was written there ({len(errs)} field(s) differ)", loc, instance=inst)
     c.floor(R, n_ok + len([1 for x in seen]), 19, "attribute arms matched")
     rule_spec(c, prog, enc)
+    rule_examples(c, prog)
 
 
 def strip_try(t):
@@ -253,3 +254,30 @@ def rule_spec(c, prog, enc):
                 c.ok(R, inst + ":present")
             else:
                 c.violation(R, f"layout|{name}|missing", f"no writer grammar extracted for documented attribute type {name}", "rbx_types/src/attributes/writer.rs", instance=inst)
+
+
+def rule_examples(c, prog, R="C14.spec"):
+    """worked examples of docs/attributes.md whose value is a plain list of numbers and whose section lays the type out
+    as f32 fields only: the bytes shown must be those numbers, little-endian, in field order — an independent encoder
+    is written from the tables and checked against the examples"""
+    import struct
+    doc = spec.type_ids("attributes.md")
+    n = 0
+    for name, (tid, body) in sorted(doc.items()):
+        for m in re.finditer(r"with the value `([^`]+)` (?:would look|looks) like this(?: when serialized)?: `([0-9a-fA-F ]+)`", body):
+            vals, hx = m.group(1), m.group(2)
+            try:
+                want = [float(v) for v in vals.split(",")]
+            except ValueError:
+                continue      # `CFrame.new(..)`-style values are not lists of numbers
+            raw = bytes.fromhex(hx.replace(" ", ""))
+            if len(raw) != 4 * len(want):
+                continue      # not an all-f32 layout (UDim: f32 + i32, sequences: counts)
+            got = list(struct.unpack("<" + "f" * len(want), raw))
+            n += 1
+            inst = f"example:{name}"
+            if got == want:
+                c.ok(R, inst)
+            else:
+                c.violation(R, f"example|{name}", f"docs/attributes.md, {name}: the example says the value `{vals}` looks like `{hx}`, but those bytes are the f32s {got}; per the section's own field table `{vals}` is `{' '.join(f'{b:02x}' for b in struct.pack('<' + 'f' * len(want), *want))}` (which is also what the codec writes: C14.spec layout) — a blob built from the example does not decode to the value the document says it describes", "docs/attributes.md", instance=inst)
+    c.floor(R, n, 3, "all-f32 worked examples in docs/attributes.md")
